@@ -24,8 +24,9 @@ def run(ctx, factor):
                       "@8bit_reg", "@64", "@-x", "@.r", "@R", "@_"])        # anything after the @ makes a reference
         refdef = {"name": ref, "pattern": [g.pick(["pop", {"sub": ["rcx"]}])] if g.chance(0.5) else "xor"}
         pos = g.pick(["list-item", "operand", "dict-value", "key-with-operands", "key-with-times", "in-macro-body",
-                      "embedded-in-operand", "embedded-in-mnemonic", "embedded-in-dict-value", "in-macro-argument"])
-        if pos.startswith("embedded"):
+                      "embedded-in-operand", "embedded-in-mnemonic", "embedded-in-dict-value", "in-macro-argument",
+                      "inside-string-macro-text"])
+        if pos.startswith("embedded") or pos == "inside-string-macro-text":
             refdef = {"name": ref, "pattern": g.pick(["ax", "orq", "r8"])}      # only string macros can sit inside a name
         macros = [copy.deepcopy(d) for d in defs[: g.int(1, 2)]]
         pat = doc["pattern"]
@@ -46,6 +47,14 @@ def run(ctx, factor):
             macros.insert(g.int(0, len(macros)), {"name": "@pm", "args": ["macro-arg"], "pattern": [{"mov": ["macro-arg", "rbx"]}]})
             pat.insert(g.int(0, len(pat)), g.pick([{"@pm": {"macro-arg": ref}}, {"@pm": None, "macro-arg": ref}]))
             refdef = {"name": ref, "pattern": g.pick(["rcx", "r9"])}
+        elif pos == "inside-string-macro-text":
+            # the reference sits inside the TEXT of a string macro that the rule uses as a whole item / operand / key:
+            # after the expansion the leftover string is exactly that macro's text - still an unresolved reference
+            text = g.pick(["%r", "r", "x", "%e"]) + ref
+            use = g.pick(["operand", "item", "key-with-times", "dict-value"])
+            macros.append({"name": "@w", "pattern": text})
+            pat.insert(g.int(0, len(pat)), {"mov": ["@w", "rbx"]} if use == "operand" else "@w" if use == "item" else
+                       {"@w": {"times": 2}} if use == "key-with-times" else {"mov": [{"$deref": {"main_reg": "@w"}}]})
         elif pos == "key-with-operands":
             pat.insert(g.int(0, len(pat)), {ref: ["rax"]})
         elif pos == "key-with-times":
@@ -55,8 +64,8 @@ def run(ctx, factor):
             pat.insert(g.int(0, len(pat)), "@user")
             macros.insert(g.int(0, len(macros)), user)
         if status != "undefined":
-            if pos == "in-macro-body":
-                ui = next(i for i, m in enumerate(macros) if m["name"] == "@user")
+            if pos in ("in-macro-body", "inside-string-macro-text"):
+                ui = next(i for i, m in enumerate(macros) if m["name"] in ("@user", "@w"))
                 if status == "defined-before":
                     macros.insert(ui, refdef)         # listed earlier than its user: no later pass rescans the body
                 else:
